@@ -19,6 +19,8 @@ CANARIES = {
         ("registry-key-typo", "stix2/v21/__init__.py", "str-perturb", ["'campaign'"], "C01.registry-key"),
         ("fixed-spec_version-lost", "stix2/v21/sdo.py", "drop-keyword", ["Grouping", "drop fixed="], "C01.version-detectable"),
         ("encoder-drops-fixed", "stix2/base.py", "drop-bool-operand", ["_STIXBase.__init__", "drop operand 1", "_fixed_value"], "C01.defaulted-bookkeeping"),
+        ("set-ordered-extension-properties", "stix2/base.py", "text", ["toplevel_extension_props = list(registered_toplevel_extension_props)", "toplevel_extension_props = list(registered_toplevel_extension_props.keys() | kwargs.keys())"], "C01.spec-order"),
+        ("isdigit-guards-int", "stix2/serialization.py", "text", ["if search_key.isdecimal():", "if search_key.isdigit():"], "C01.pretty-sort-key"),
     ],
     "C02": [
         ("required-lost", "stix2/v21/sdo.py", "drop-keyword", ["Identity", "drop required="], "C02.table"),
